@@ -10,6 +10,9 @@ import re
 from vivarium.library.dict_utils import deep_merge, deep_merge_multi_update
 
 
+_MISSING = object()
+
+
 def get_in(d, path, default=None):
     '''Get the value from a dictionary by its path.
 
@@ -216,6 +219,14 @@ def inverse_topology(outer, update, topology, inverse=None, multi_updates=True):
                             inverse,
                             inner,
                             lambda current: deep_merge(current, value))
+                elif multi_updates and get_in(
+                        inverse, inner, _MISSING) is not _MISSING:
+                    # another port is wired to this variable too
+                    inverse = update_in(
+                        inverse,
+                        inner[:-1],
+                        lambda current: deep_merge_multi_update(
+                            current, {inner[-1]: value}))
                 else:
                     assoc_path(inverse, inner, value)
     return inverse
